@@ -174,6 +174,11 @@ func c01Layouts(tier string, f func(i int, l pegen.Layout)) {
 			f(i, l)
 			i++
 		}
+		// VirtualSize 0 on sections with raw data, in every subset of three sections
+		for m := 1; m < 8; m++ {
+			f(i, pegen.Layout{PE32Plus: plus, Lfanew: 0x40, Secs: []pegen.Sec{{RawSize: 13, VirtZero: m&1 != 0}, {RawSize: 8, VirtZero: m&2 != 0}, {RawSize: 16, VirtZero: m&4 != 0}}, Trailing: m % 3})
+			i++
+		}
 		// SizeOfHeaders reaching into the first section (by 1, 8, 13 bytes; as far as the whole section), with
 		// trailing data shorter than, equal to and longer than the overlap: a parser may refuse these; if
 		// it accepts, every section byte is covered and the digest is the literal one
@@ -323,6 +328,10 @@ func c01Region(im *refpe.Image, off int) string {
 	return "gap/trailing data"
 }
 
+// c01FieldSweep: whether the next c01Image call also runs the field-value mutants (quick tier: every
+// seventh layout and all fixtures; thorough: all)
+var c01FieldSweep = true
+
 func c01Image(c *hx.Ctx, img []byte, desc string, masks []byte, flipStride int) {
 	want, im, rerr := refpe.Digest(img)
 	if rerr != nil {
@@ -423,6 +432,50 @@ func c01Image(c *hx.Ctx, img []byte, desc string, masks []byte, flipStride int) 
 			mut[off] = img[off]
 		}
 	}
+	if c01FieldSweep {
+		c01FieldValues(c, img, desc, want, im)
+	}
+}
+
+// c01FieldValues: every 16-bit and 32-bit aligned field position of the headers set to zero and to all
+// ones (single-byte flips never produce "this field is exactly 0", which is what code that consults a
+// field the algorithm does not read — VirtualSize, VirtualAddress, relocation pointers — branches on).
+func c01FieldValues(c *hx.Ctx, img []byte, desc string, want []byte, im *refpe.Image) {
+	mut := append([]byte{}, img...)
+	for _, w := range []int{2, 4} {
+		for off := 0; off+w <= im.SizeOfHeaders && off+w <= len(img); off += w {
+			for _, v := range []byte{0x00, 0xff} {
+				if !c.Next() {
+					continue
+				}
+				same := true
+				for i := 0; i < w; i++ {
+					if img[off+i] != v {
+						same = false
+					}
+					mut[off+i] = v
+				}
+				if !same {
+					rw, rim, rerr := refpe.Digest(mut)
+					if rerr != nil {
+						c.Outcome("mutant-ill-formed(skipped)")
+					} else if got, perr, pn := libDigest(mut); pn != nil {
+						c.Outcome("mutant-panic(C13)")
+					} else if perr != nil {
+						c.Outcome("mutant-rejected-by-parser(skipped)")
+					} else if !bytes.Equal(got, rw) {
+						c.Outcome("mutant-digest-mismatch")
+						c.Violation(fmt.Sprintf("C01 header field set to %#x: the digest does not follow the specification (%s)", v, c01Region(rim, off)), map[string]any{"layout": desc, "image": hx8(mut), "offset": off, "width": w, "library": hx8(got), "specification": hx8(rw)})
+					} else {
+						c.Outcome("mutant-field-value-equal")
+						c.Nontrivial(mut)
+					}
+				}
+				copy(mut[off:off+w], img[off:off+w])
+			}
+		}
+	}
+	_ = want
 }
 
 func c01Class(im *refpe.Image) string {
@@ -470,7 +523,9 @@ func c01Run(c *hx.Ctx, tier, unit string) {
 			if l.Big || len(img) > 20000 {
 				stride = 97
 			}
+			c01FieldSweep = tier == "thorough" || (i/c01Shards)%7 == 0 || len(l.Secs) >= 3
 			c01Image(c, img, c01Describe(l), masks, stride)
+			c01FieldSweep = true
 		})
 	case unit == "fixtures":
 		for _, f := range []string{"/repo/authenticode/testdata/test.pecoff", "/repo/authenticode/testdata/test.pecoff.signed", "/repo/tests/data/binary/HelloWorld.efi",
